@@ -2,6 +2,7 @@
   Finv (C04), part 26: one step and histories — every call in `Op.core` preserves the invariant.
 -/
 import XotModel.Lemmas.FinvClone2
+import XotModel.Lemmas.FinvReplFinal
 
 namespace XotModel
 namespace Forest
@@ -37,7 +38,7 @@ theorem step_inv {f : Forest} (hi : f.Inv) (o : Op) (hc : o.core = true) : (f.st
   | textContentSet n s => exact textContentSet_inv hi n s
   | setConsolidation b => exact setConsolidation_inv hi b
   | removeInsignificantWhitespace n => exact removeInsignificantWhitespace_inv hi n
-  | replace a b => cases hc
+  | replace a b => exact replace_inv hi a b
   | elementWrap n name => exact elementWrap_inv hi n name
   | elementUnwrap n => exact elementUnwrap_inv hi n
   | cloneNode n => exact cloneNode_inv hi n
